@@ -8,7 +8,8 @@ package eval
 // one rekeyed, one near its minimum balance, one empty) lives in a scripted in-memory ledger
 // (vc18Ledger: the whole ledger IS the universe, so every balance can be enumerated).  For every
 // block the real StartEvaluator (Validate+Generate) is started, random groups of 1..16
-// payment / close / keyreg / rekey / asset transactions -- with failing members of varied kinds at varied
+// payment / close / keyreg / rekey / asset transactions and application calls (a fixed interpreter
+// program executes its arguments as a script, see vc18Interpreter) -- with failing members of varied kinds at varied
 // positions -- are fed to the real BlockEvaluator.TransactionGroup, and after every call the
 // evaluator is snapshotted from inside the package: the account table seen through
 // eval.state.lookup, asset params / holdings / creators, eval.state.mods.Accts order, Txids (with
@@ -20,6 +21,7 @@ package eval
 
 import (
 	"context"
+	"encoding/binary"
 	"errors"
 	"fmt"
 	"sort"
@@ -32,7 +34,10 @@ import (
 	"github.com/algorand/go-algorand/data/basics"
 	"github.com/algorand/go-algorand/data/bookkeeping"
 	"github.com/algorand/go-algorand/data/committee"
+	"github.com/algorand/avm-abi/apps"
+
 	"github.com/algorand/go-algorand/data/transactions"
+	"github.com/algorand/go-algorand/data/transactions/logic"
 	"github.com/algorand/go-algorand/data/transactions/verify"
 	"github.com/algorand/go-algorand/ledger/ledgercore"
 	"github.com/algorand/go-algorand/protocol"
@@ -49,6 +54,9 @@ type vc18Ledger struct {
 	aparams  map[ledgercore.AccountAsset]basics.AssetParams
 	totals   ledgercore.AccountTotals
 	txids    map[transactions.Txid]basics.Round // committed txid -> LastValid
+	appPar   map[ledgercore.AccountApp]basics.AppParams
+	appLoc   map[ledgercore.AccountApp]basics.AppLocalState
+	kv       map[string][]byte
 }
 
 func (l *vc18Ledger) latest() basics.Round { return basics.Round(len(l.hdrs) - 1) }
@@ -100,14 +108,28 @@ func (l *vc18Ledger) LookupAsset(_ basics.Round, a basics.Address, idx basics.As
 	}
 	return res, nil
 }
-func (l *vc18Ledger) LookupApplication(basics.Round, basics.Address, basics.AppIndex) (ledgercore.AppResource, error) {
-	return ledgercore.AppResource{}, nil
+func (l *vc18Ledger) LookupApplication(_ basics.Round, a basics.Address, idx basics.AppIndex) (ledgercore.AppResource, error) {
+	var res ledgercore.AppResource
+	k := ledgercore.AccountApp{Address: a, App: idx}
+	if p, ok := l.appPar[k]; ok {
+		res.AppParams = &p
+	}
+	if s, ok := l.appLoc[k]; ok {
+		res.AppLocalState = &s
+	}
+	return res, nil
 }
-func (l *vc18Ledger) LookupKv(basics.Round, string) ([]byte, error) { return nil, nil }
+func (l *vc18Ledger) LookupKv(_ basics.Round, key string) ([]byte, error) { return l.kv[key], nil }
 func (l *vc18Ledger) GetCreatorForRound(_ basics.Round, idx basics.CreatableIndex, ct basics.CreatableType) (basics.Address, bool, error) {
 	if ct == basics.AssetCreatable {
 		for k := range l.aparams {
 			if k.Asset == basics.AssetIndex(idx) {
+				return k.Address, true, nil
+			}
+		}
+	} else {
+		for k := range l.appPar {
+			if k.App == basics.AppIndex(idx) {
 				return k.Address, true, nil
 			}
 		}
@@ -147,6 +169,26 @@ func (l *vc18Ledger) add(blk bookkeeping.Block, delta ledgercore.StateDelta) {
 			l.aparams[k] = *r.Params.Params
 		}
 	}
+	for _, r := range delta.Accts.AppResources {
+		k := ledgercore.AccountApp{Address: r.Addr, App: r.Aidx}
+		if r.Params.Deleted {
+			delete(l.appPar, k)
+		} else if r.Params.Params != nil {
+			l.appPar[k] = *r.Params.Params
+		}
+		if r.State.Deleted {
+			delete(l.appLoc, k)
+		} else if r.State.LocalState != nil {
+			l.appLoc[k] = *r.State.LocalState
+		}
+	}
+	for key, v := range delta.KvMods {
+		if v.Data == nil {
+			delete(l.kv, key)
+		} else {
+			l.kv[key] = v.Data
+		}
+	}
 	l.totals = delta.Totals
 	for txid, inc := range delta.Txids {
 		l.txids[txid] = inc.LastValid
@@ -165,8 +207,169 @@ type vc18U struct {
 	st     map[string]int
 	uniq   uint64
 	dead   bool // the real code refused one of its own blocks: stop this universe
-	assetWeight int // share of asset transactions (out of 20 + assetWeight)
+	assetWeight int // share of asset transactions (out of 20 + assetWeight + appWeight)
+	appWeight   int // share of application calls
+	appids      []uint64                   // application ids created so far (ascending)
+	appAddr     map[basics.Address]uint64  // application account -> application id
+	prog        []byte                     // the interpreter program
 	aids   []uint64 // asset ids known so far (ascending), incl. predicted ids of groups that were tried
+}
+
+func (u *vc18U) addApp(id uint64) {
+	for _, x := range u.appids {
+		if x == id {
+			return
+		}
+	}
+	u.appids = append(u.appids, id)
+	sort.Slice(u.appids, func(i, j int) bool { return u.appids[i] < u.appids[j] })
+	u.appAddr[basics.AppIndex(id).Address()] = id
+}
+
+func (u *vc18U) appList() []interface{} {
+	var l []interface{}
+	for _, x := range u.appids {
+		l = append(l, x)
+	}
+	return l
+}
+
+// ids created by a group that was just accepted: read from the ApplyData of the new Payset entries
+func (u *vc18U) learnIDs(ads []transactions.SignedTxnInBlock) {
+	var walk func(ad transactions.ApplyData)
+	walk = func(ad transactions.ApplyData) {
+		if ad.ConfigAsset != 0 {
+			u.addAid(uint64(ad.ConfigAsset))
+		}
+		if ad.ApplicationID != 0 {
+			u.addApp(uint64(ad.ApplicationID))
+		}
+		for _, in := range ad.EvalDelta.InnerTxns {
+			walk(in.ApplyData)
+		}
+	}
+	for _, t := range ads {
+		walk(t.ApplyData)
+	}
+}
+
+// box name i (1..4): the first i bytes of "wxyz"; state key k: itob(k)
+func vc18BoxName(i int) string { return "wxyz"[:i] }
+func vc18Key(k int) string {
+	var b [8]byte
+	binary.BigEndian.PutUint64(b[:], uint64(k))
+	return string(b[:])
+}
+
+// application rows (see coq/model/EvalCheck.v appobs_of); kind 4 only when counts != nil, kind 6 only when kvs != nil
+func (u *vc18U) appRows(creator func(uint64) (basics.Address, bool), params func(basics.Address, uint64) (basics.AppParams, bool),
+	local func(basics.Address, uint64) (basics.AppLocalState, bool), counts func(basics.Address, uint64, bool) (basics.StateSchema, bool),
+	box func(uint64, string) ([]byte, bool), stored bool) []interface{} {
+	var rows []interface{}
+	for _, id := range u.appids {
+		if c, ok := creator(id); ok && !stored {
+			rows = append(rows, vL(3, id, u.id(c)))
+		}
+		for i, a := range u.addrs {
+			if p, ok := params(a, id); ok {
+				rows = append(rows, vL(1, i+1, id, p.GlobalStateSchema.NumUint, p.GlobalStateSchema.NumByteSlice,
+					p.LocalStateSchema.NumUint, p.LocalStateSchema.NumByteSlice, uint64(p.ExtraProgramPages), u.id(p.SizeSponsor)))
+				if stored {
+					for _, k := range []int{1, 2, 3, 4} {
+						if v, ok := p.GlobalState[vc18Key(k)]; ok {
+							rows = append(rows, vL(6, i+1, id, 1, k, v.Type == basics.TealBytesType))
+						}
+					}
+				}
+			}
+			if s, ok := local(a, id); ok {
+				rows = append(rows, vL(2, i+1, id, s.Schema.NumUint, s.Schema.NumByteSlice))
+				if stored {
+					for _, k := range []int{1, 2, 3, 4} {
+						if v, ok := s.KeyValue[vc18Key(k)]; ok {
+							rows = append(rows, vL(6, i+1, id, 0, k, v.Type == basics.TealBytesType))
+						}
+					}
+				}
+			}
+		}
+		if counts != nil {
+			for i, a := range u.addrs {
+				for _, g := range []bool{true, false} {
+					if c, ok := counts(a, id, g); ok {
+						rows = append(rows, vL(4, i+1, id, g, c.NumUint, c.NumByteSlice))
+					}
+				}
+			}
+		}
+		for n := 1; n <= 4; n++ {
+			if b, ok := box(id, vc18BoxName(n)); ok {
+				rows = append(rows, vL(5, id, n, len(b)))
+			}
+		}
+	}
+	return rows
+}
+
+func (u *vc18U) ledgerAppRows(stored bool) []interface{} {
+	l := u.l
+	return u.appRows(
+		func(id uint64) (basics.Address, bool) {
+			a, ok, _ := l.GetCreatorForRound(0, basics.CreatableIndex(id), basics.AppCreatable)
+			return a, ok
+		},
+		func(a basics.Address, id uint64) (basics.AppParams, bool) {
+			p, ok := l.appPar[ledgercore.AccountApp{Address: a, App: basics.AppIndex(id)}]
+			return p, ok
+		},
+		func(a basics.Address, id uint64) (basics.AppLocalState, bool) {
+			s, ok := l.appLoc[ledgercore.AccountApp{Address: a, App: basics.AppIndex(id)}]
+			return s, ok
+		},
+		nil,
+		func(id uint64, name string) ([]byte, bool) {
+			b, ok := l.kv[apps.MakeBoxKey(id, name)]
+			return b, ok
+		}, stored)
+}
+
+func (u *vc18U) evalAppRows(ev *BlockEvaluator) []interface{} {
+	must := func(err error) {
+		if err != nil {
+			panic(err)
+		}
+	}
+	return u.appRows(
+		func(id uint64) (basics.Address, bool) {
+			a, ok, err := ev.state.GetCreator(basics.CreatableIndex(id), basics.AppCreatable)
+			must(err)
+			return a, ok
+		},
+		func(a basics.Address, id uint64) (basics.AppParams, bool) {
+			p, ok, err := ev.state.GetAppParams(a, basics.AppIndex(id))
+			must(err)
+			return p, ok
+		},
+		func(a basics.Address, id uint64) (basics.AppLocalState, bool) {
+			s, ok, err := ev.state.GetAppLocalState(a, basics.AppIndex(id))
+			must(err)
+			return s, ok
+		},
+		func(a basics.Address, id uint64, g bool) (basics.StateSchema, bool) {
+			al, err := ev.state.allocated(a, basics.AppIndex(id), g)
+			must(err)
+			if !al {
+				return basics.StateSchema{}, false
+			}
+			c, err := ev.state.getStorageCounts(a, basics.AppIndex(id), g)
+			must(err)
+			return c, true
+		},
+		func(id uint64, name string) ([]byte, bool) {
+			b, ok, err := ev.state.GetBox(basics.AppIndex(id), name)
+			must(err)
+			return b, ok
+		}, false)
 }
 
 func (u *vc18U) aidList() []interface{} {
@@ -200,7 +403,19 @@ func (u *vc18U) aparams(p basics.AssetParams) []interface{} {
 func (u *vc18U) aview(getP func(basics.Address, basics.AssetIndex) (basics.AssetParams, bool), getH func(basics.Address, basics.AssetIndex) (basics.AssetHolding, bool),
 	getC func(basics.AssetIndex) (basics.Address, bool)) ([]interface{}, []interface{}) {
 	var av, cr []interface{}
+	type who struct {
+		id int
+		a  basics.Address
+	}
+	var all []who
 	for i, a := range u.addrs {
+		all = append(all, who{i + 1, a})
+	}
+	for _, app := range u.appids { // application accounts can hold assets as well
+		all = append(all, who{1000000 + int(app), basics.AppIndex(app).Address()})
+	}
+	for _, w := range all {
+		i, a := w.id-1, w.a
 		for _, id := range u.aids {
 			p, okp := getP(a, basics.AssetIndex(id))
 			h, okh := getH(a, basics.AssetIndex(id))
@@ -253,6 +468,9 @@ func (u *vc18U) id(a basics.Address) int {
 	}
 	if i, ok := u.ids[a]; ok {
 		return i
+	}
+	if i, ok := u.appAddr[a]; ok {
+		return 1000000 + int(i)
 	}
 	panic("address outside the universe: " + a.String())
 }
@@ -311,6 +529,11 @@ func (u *vc18U) ledgerTable() []interface{} {
 	for i, a := range u.addrs {
 		t = append(t, vL(i+1, u.acct(u.l.accts[a])))
 	}
+	for _, id := range u.appids { // application accounts: only when not all-zero
+		if d := u.l.accts[basics.AppIndex(id).Address()]; !d.IsZero() {
+			t = append(t, vL(1000000+id, u.acct(d)))
+		}
+	}
 	return t
 }
 
@@ -323,6 +546,15 @@ func (u *vc18U) snap(ev *BlockEvaluator) []interface{} {
 			panic(err)
 		}
 		table = append(table, vL(i+1, u.acct(d)))
+	}
+	for _, id := range u.appids {
+		d, err := ev.state.lookup(basics.AppIndex(id).Address())
+		if err != nil {
+			panic(err)
+		}
+		if !d.IsZero() {
+			table = append(table, vL(1000000+id, u.acct(d)))
+		}
 	}
 	for _, a := range ev.state.modifiedAccounts() {
 		mods = append(mods, u.id(a))
@@ -378,7 +610,7 @@ func (u *vc18U) snap(ev *BlockEvaluator) []interface{} {
 			}
 			return a, ok
 		})
-	return vL(table, mods, txids, leases, ev.state.txnCount, ev.state.feesCollected.Raw, len(ev.block.Payset), av, cr, ev.blockTxBytes)
+	return vL(table, mods, txids, leases, ev.state.txnCount, ev.state.feesCollected.Raw, len(ev.block.Payset), av, cr, ev.blockTxBytes, u.evalAppRows(ev))
 }
 
 // error classes: keep in sync with coq/model/EvalCow.v (E_*)
@@ -443,14 +675,16 @@ func vc18Params(p config.ConsensusParams) []interface{} {
 		p.Payouts.Enabled, p.Payouts.GoOnlineFee, p.EnableKeyregCoherencyCheck, p.SupportBecomeNonParticipatingTransactions,
 		p.EnableStateProofKeyregCheck, p.MaximumMinimumBalance, p.MaxAssetsPerAccount, p.AppFlatParamsMinBalance,
 		p.AppFlatOptInMinBalance, p.BoxFlatMinBalance, p.BoxByteMinBalance, p.SchemaMinBalancePerEntry, p.SchemaUintMinBalance,
-		p.SchemaBytesMinBalance, uint64(agreement.BalanceLookback(p)), p.MaxProposedExpiredOnlineAccounts, p.EnableAssetCloseAmount)
+		p.SchemaBytesMinBalance, uint64(agreement.BalanceLookback(p)), p.MaxProposedExpiredOnlineAccounts, p.EnableAssetCloseAmount,
+		p.MaxAppsCreated, p.MaxAppsOptedIn, p.MaxAppKeyLen, p.MaxBoxSize, p.EnableProperExtraPageAccounting)
 }
 
 // ---------------------------------------------------------------- genesis
 func vc18NewUniverse(t *testing.T, r *vRand, st map[string]int) *vc18U {
 	protoV := protocol.ConsensusFuture
 	proto := config.Consensus[protoV]
-	u := &vc18U{ids: map[basics.Address]int{}, txids: map[transactions.Txid]int{}, leases: map[[32]byte]int{}, r: r, st: st}
+	u := &vc18U{ids: map[basics.Address]int{}, txids: map[transactions.Txid]int{}, leases: map[[32]byte]int{}, r: r, st: st,
+		appAddr: map[basics.Address]uint64{}, prog: vc18Program(t)}
 	const n = 9
 	for i := 0; i < n; i++ {
 		var seed crypto.Seed
@@ -513,7 +747,8 @@ func vc18NewUniverse(t *testing.T, r *vRand, st map[string]int) *vc18U {
 	accts[u.addrs[8]] = res
 
 	l := &vc18Ledger{proto: proto, protoV: protoV, accts: accts, txids: map[transactions.Txid]basics.Round{},
-		holdings: map[ledgercore.AccountAsset]basics.AssetHolding{}, aparams: map[ledgercore.AccountAsset]basics.AssetParams{}}
+		holdings: map[ledgercore.AccountAsset]basics.AssetHolding{}, aparams: map[ledgercore.AccountAsset]basics.AssetParams{},
+		appPar: map[ledgercore.AccountApp]basics.AppParams{}, appLoc: map[ledgercore.AccountApp]basics.AppLocalState{}, kv: map[string][]byte{}}
 	copy(l.gh[:], r.Bytes(32))
 	gb := bookkeeping.GenesisBalances{Balances: map[basics.Address]basics.AccountData{}, FeeSink: u.addrs[vc18Sink], RewardsPool: u.addrs[vc18Pool]}
 	var ot basics.OverflowTracker
@@ -605,8 +840,10 @@ func (u *vc18U) genTx(ev *BlockEvaluator, rnd basics.Round) vc18Tx {
 	if bal > minb+tx.Fee.Raw {
 		spendable = bal - minb - tx.Fee.Raw
 	}
-	kind := r.Intn(20 + u.assetWeight)
+	kind := r.Intn(20 + u.assetWeight + u.appWeight)
 	switch {
+	case kind >= 20+u.assetWeight: // application transaction
+		s = u.genApp(ev, &tx, s)
 	case kind >= 20: // asset transaction
 		if spendable < 2*p.MinBalance && r.Intn(4) != 0 {
 			s = 2 // creations and opt-ins raise the requirement: mostly let the rich account do them
@@ -680,6 +917,11 @@ func (u *vc18U) genTx(ev *BlockEvaluator, rnd basics.Round) vc18Tx {
 		default:
 			tx.RekeyTo = u.addrs[u.user()]
 		}
+	}
+	minFee := basics.MicroAlgos{Raw: p.MinTxnFee}
+	stx0 := transactions.SignedTxn{Txn: tx}
+	if need, _, _ := minFee.FeeForUsage(stx0.FeeFactor(p), 1e6, 0); tx.Fee.Raw < need.Raw {
+		tx.Fee = need // big programs / notes cost more than one minimum fee
 	}
 	return vc18Tx{tx: tx, signer: u.signerFor(ev, s)}
 }
@@ -835,6 +1077,584 @@ func (u *vc18U) genAsset(ev *BlockEvaluator, tx *transactions.Transaction, s int
 				tx.AssetParams.Manager = params.Manager
 			}
 		}
+	}
+	return s
+}
+
+
+// ---------------------------------------------------------------- the interpreter program
+// One application argument = one operation, 42 bytes: opcode, five big-endian uint64 operands
+// a b c d e, and a "more" flag (the next inner transaction belongs to the same inner group).
+//   1 box_create(name a, size b)   2 box_del(name a)        3 box_resize(name a, size b)
+//   4 app_global_put(key a, bytes? b)   5 app_global_del(key a)
+//   6 app_local_put(account a, key b, bytes? c)   7 app_local_del(account a, key b)
+//   8 inner payment(receiver account a, amount b, close-to account c-1 if c>0, fee d)
+//   9 inner asset transfer(asset index a, amount b, receiver account c, fee d, close-to account e-1 if e>0)
+//  10 err   11 reject (return 0)   12 burn the opcode budget
+//  13 inner opt-in of the application account to asset index a (fee d)
+// Box name i = the first i bytes of "wxyz", state key k = itob(k), values: 7 or "v".
+// Accounts are indexes into txn Accounts (0 = sender), assets into txn Assets.
+// A creation call (ApplicationID = 0) approves without running anything.
+const vc18Interpreter = `#pragma version 10
+txn ApplicationID
+bz approve
+int 0
+store 0
+int 0
+store 7
+loop:
+load 0
+txn NumAppArgs
+<
+bz approve
+load 0
+txnas ApplicationArgs
+store 1
+load 1
+int 0
+getbyte
+store 2
+load 1
+extract 1 8
+btoi
+store 3
+load 1
+extract 9 8
+btoi
+store 4
+load 1
+extract 17 8
+btoi
+store 5
+load 1
+extract 25 8
+btoi
+store 6
+load 1
+extract 33 8
+btoi
+store 8
+load 1
+int 41
+getbyte
+store 9
+load 2
+switch bad o1 o2 o3 o4 o5 o6 o7 o8 o9 o10 o11 o12 o13
+bad:
+err
+o1:
+byte "wxyz"
+int 0
+load 3
+extract3
+load 4
+box_create
+pop
+b next
+o2:
+byte "wxyz"
+int 0
+load 3
+extract3
+box_del
+pop
+b next
+o3:
+byte "wxyz"
+int 0
+load 3
+extract3
+load 4
+box_resize
+b next
+o4:
+load 3
+itob
+load 4
+bnz o4b
+int 7
+app_global_put
+b next
+o4b:
+byte "v"
+app_global_put
+b next
+o5:
+load 3
+itob
+app_global_del
+b next
+o6:
+load 3
+txnas Accounts
+load 4
+itob
+load 5
+bnz o6b
+int 7
+app_local_put
+b next
+o6b:
+byte "v"
+app_local_put
+b next
+o7:
+load 3
+txnas Accounts
+load 4
+itob
+app_local_del
+b next
+o8:
+callsub begin
+int pay
+itxn_field TypeEnum
+load 3
+txnas Accounts
+itxn_field Receiver
+load 4
+itxn_field Amount
+load 5
+bz o8c
+load 5
+int 1
+-
+txnas Accounts
+itxn_field CloseRemainderTo
+o8c:
+load 6
+itxn_field Fee
+b innerend
+o9:
+callsub begin
+int axfer
+itxn_field TypeEnum
+load 3
+txnas Assets
+itxn_field XferAsset
+load 4
+itxn_field AssetAmount
+load 5
+txnas Accounts
+itxn_field AssetReceiver
+load 8
+bz o9c
+load 8
+int 1
+-
+txnas Accounts
+itxn_field AssetCloseTo
+o9c:
+load 6
+itxn_field Fee
+b innerend
+o13:
+callsub begin
+int axfer
+itxn_field TypeEnum
+load 3
+txnas Assets
+itxn_field XferAsset
+int 0
+itxn_field AssetAmount
+global CurrentApplicationAddress
+itxn_field AssetReceiver
+load 6
+itxn_field Fee
+b innerend
+innerend:
+load 9
+bnz setmore
+itxn_submit
+int 0
+store 7
+b next
+setmore:
+int 1
+store 7
+b next
+o10:
+err
+o11:
+int 0
+return
+o12:
+int 1
+pop
+b o12
+next:
+load 0
+int 1
++
+store 0
+b loop
+begin:
+load 7
+bnz beginnext
+itxn_begin
+retsub
+beginnext:
+itxn_next
+retsub
+approve:
+int 1
+return
+`
+
+func vc18Program(t *testing.T) []byte {
+	ops, err := logic.AssembleString(vc18Interpreter)
+	if err != nil {
+		t.Fatalf("assembling the interpreter: %v", err)
+	}
+	return ops.Program
+}
+
+func vc18Arg(op byte, a, b, c, d, e uint64, more bool) []byte {
+	x := make([]byte, 42)
+	x[0] = op
+	binary.BigEndian.PutUint64(x[1:], a)
+	binary.BigEndian.PutUint64(x[9:], b)
+	binary.BigEndian.PutUint64(x[17:], c)
+	binary.BigEndian.PutUint64(x[25:], d)
+	binary.BigEndian.PutUint64(x[33:], e)
+	if more {
+		x[41] = 1
+	}
+	return x
+}
+
+// the abstract script of an application call, decoded from its arguments exactly as the
+// interpreter reads them
+func (u *vc18U) describeApp(t transactions.Transaction) []interface{} {
+	acct := func(i uint64) (int, bool) {
+		if i == 0 {
+			return u.id(t.Sender), true
+		}
+		if int(i) > len(t.Accounts) {
+			return 0, false
+		}
+		return u.id(t.Accounts[i-1]), true
+	}
+	asset := func(i uint64) (uint64, bool) {
+		if int(i) >= len(t.ForeignAssets) {
+			return 0, false
+		}
+		return uint64(t.ForeignAssets[i]), true
+	}
+	accept := true
+	var ops []interface{}
+	var inner []interface{}
+	flush := func(more bool) {
+		if !more {
+			ops = append(ops, vL(vSym("in"), inner))
+			inner = nil
+		}
+	}
+	fail := func() { ops = append(ops, vL(vSym("fail"))) }
+	if t.ApplicationID != 0 {
+	argloop:
+		for _, x := range t.ApplicationArgs {
+			if len(x) != 42 {
+				fail()
+				break
+			}
+			a, b, c := binary.BigEndian.Uint64(x[1:]), binary.BigEndian.Uint64(x[9:]), binary.BigEndian.Uint64(x[17:])
+			d, e, more := binary.BigEndian.Uint64(x[25:]), binary.BigEndian.Uint64(x[33:]), x[41] != 0
+			switch x[0] {
+			case 1:
+				ops = append(ops, vL(vSym("bc"), a, a, b))
+			case 2:
+				ops = append(ops, vL(vSym("bd"), a, a))
+			case 3:
+				ops = append(ops, vL(vSym("br"), a, a, b))
+			case 4:
+				ops = append(ops, vL(vSym("gp"), a, b != 0))
+			case 5:
+				ops = append(ops, vL(vSym("gd"), a))
+			case 6, 7:
+				ad, ok := acct(a)
+				if !ok {
+					fail()
+					break argloop
+				}
+				if x[0] == 6 {
+					ops = append(ops, vL(vSym("lp"), ad, b, c != 0))
+				} else {
+					ops = append(ops, vL(vSym("ld"), ad, b))
+				}
+			case 8:
+				rc, ok1 := acct(a)
+				cl, ok2 := 0, true
+				if c > 0 {
+					cl, ok2 = acct(c - 1)
+				}
+				if !ok1 || !ok2 {
+					fail()
+					break argloop
+				}
+				inner = append(inner, vL(d, vL(vSym("pay"), rc, b, cl)))
+				flush(more)
+			case 9:
+				as, ok0 := asset(a)
+				rc, ok1 := acct(c)
+				cl, ok2 := 0, true
+				if e > 0 {
+					cl, ok2 = acct(e - 1)
+				}
+				if !ok0 || !ok1 || !ok2 {
+					fail()
+					break argloop
+				}
+				inner = append(inner, vL(d, vL(vSym("axfer"), as, b, 0, rc, cl)))
+				flush(more)
+			case 13:
+				as, ok0 := asset(a)
+				if !ok0 {
+					fail()
+					break argloop
+				}
+				inner = append(inner, vL(d, vL(vSym("axfer"), as, 0, 0, 1000000+uint64(t.ApplicationID), 0)))
+				flush(more)
+			case 11:
+				accept = false
+				break argloop
+			default: // 10 err, 12 budget, unknown opcode
+				fail()
+				break argloop
+			}
+		}
+		if inner != nil { // an inner group that was never submitted: nothing happened
+			inner = nil
+		}
+	}
+	return vL(vSym("appl"), uint64(t.ApplicationID), uint64(t.OnCompletion), t.GlobalStateSchema.NumUint, t.GlobalStateSchema.NumByteSlice,
+		t.LocalStateSchema.NumUint, t.LocalStateSchema.NumByteSlice, uint64(t.ExtraProgramPages), accept, ops)
+}
+
+// an application transaction: creation, funding of an application account, or a call with a
+// random script.  May move the sender.
+func (u *vc18U) genApp(ev *BlockEvaluator, tx *transactions.Transaction, s int) int {
+	r := u.r
+	p := ev.proto
+	var live []uint64
+	for _, id := range u.appids {
+		if _, ok, _ := ev.state.GetCreator(basics.CreatableIndex(id), basics.AppCreatable); ok {
+			live = append(live, id)
+		}
+	}
+	if len(live) == 0 || (len(live) < 3 && r.Intn(5) == 0) {
+		tx.Type = protocol.ApplicationCallTx
+		tx.ApprovalProgram, tx.ClearStateProgram = u.prog, u.prog
+		tx.GlobalStateSchema = basics.StateSchema{NumUint: uint64(1 + r.Intn(4)), NumByteSlice: uint64(1 + r.Intn(4))}
+		tx.LocalStateSchema = basics.StateSchema{NumUint: uint64(1 + r.Intn(3)), NumByteSlice: uint64(r.Intn(3))}
+		if r.Intn(6) == 0 {
+			tx.GlobalStateSchema, tx.LocalStateSchema = basics.StateSchema{NumUint: uint64(r.Intn(2))}, basics.StateSchema{}
+		}
+		if r.Intn(4) == 0 {
+			tx.ExtraProgramPages = uint32(1 + r.Intn(2))
+		}
+		if r.Intn(5) == 0 {
+			tx.OnCompletion = transactions.OptInOC
+		}
+		return s
+	}
+	id := live[r.Intn(len(live))]
+	if r.Intn(12) == 0 {
+		id = 4243 // no such application
+	}
+	appAddr := basics.AppIndex(id).Address()
+	appBal, _ := ev.state.Get(appAddr, true)
+	if id != 4243 && ((appBal.MicroAlgos.Raw < 6*p.MinBalance && r.Intn(4) != 0) || r.Intn(12) == 0) { // fund the application account
+		tx.Type = protocol.PaymentTx
+		tx.Receiver = appAddr
+		tx.Amount.Raw = 3*p.MinBalance + uint64(r.Intn(3000000))
+		if b, m := u.balance(ev, s); b < m+tx.Amount.Raw+2*p.MinTxnFee {
+			s = 2
+			tx.Sender = u.addrs[2]
+		}
+		return s
+	}
+	tx.Type = protocol.ApplicationCallTx
+	tx.ApplicationID = basics.AppIndex(id)
+	switch k := r.Intn(20); {
+	case k < 12:
+		tx.OnCompletion = transactions.NoOpOC
+	case k < 15:
+		tx.OnCompletion = transactions.OptInOC
+	case k < 16:
+		tx.OnCompletion = transactions.CloseOutOC
+	case k < 19:
+		tx.OnCompletion = transactions.ClearStateOC
+	default:
+		tx.OnCompletion = transactions.DeleteApplicationOC
+	}
+	if tx.OnCompletion == transactions.CloseOutOC || tx.OnCompletion == transactions.ClearStateOC {
+		// mostly from an account that is opted in
+		if o := u.pick(func(i int) bool {
+			_, ok, _ := ev.state.GetAppLocalState(u.addrs[i], basics.AppIndex(id))
+			return ok
+		}); o >= 0 && r.Intn(5) != 0 {
+			s = o
+			tx.Sender = u.addrs[s]
+		}
+	}
+	tx.Accounts = []basics.Address{u.addrs[u.user()], u.addrs[u.user()]}
+	optedIn := func(a basics.Address) bool {
+		_, ok, _ := ev.state.GetAppLocalState(a, basics.AppIndex(id))
+		return ok
+	}
+	if o := u.pick(func(i int) bool { return optedIn(u.addrs[i]) }); o >= 0 && r.Intn(4) != 0 {
+		tx.Accounts[0] = u.addrs[o]
+	}
+	localAcct := func() uint64 { // index of an opted-in account if there is one (mostly)
+		var c []uint64
+		if optedIn(tx.Sender) {
+			c = append(c, 0)
+		}
+		for i, a := range tx.Accounts {
+			if optedIn(a) {
+				c = append(c, uint64(i+1))
+			}
+		}
+		if len(c) == 0 || r.Intn(6) == 0 {
+			return uint64(r.Intn(3))
+		}
+		return c[r.Intn(len(c))]
+	}
+	boxName := func(existing bool) uint64 {
+		var c []uint64
+		for n := 1; n <= 4; n++ {
+			if _, ok, _ := ev.state.GetBox(basics.AppIndex(id), vc18BoxName(n)); ok == existing {
+				c = append(c, uint64(n))
+			}
+		}
+		if len(c) == 0 || r.Intn(5) == 0 {
+			return uint64(1 + r.Intn(4))
+		}
+		return c[r.Intn(len(c))]
+	}
+	for _, a := range u.aids {
+		if _, ok, _ := ev.state.GetCreator(basics.CreatableIndex(a), basics.AssetCreatable); ok && len(tx.ForeignAssets) < 2 {
+			tx.ForeignAssets = append(tx.ForeignAssets, basics.AssetIndex(a))
+		}
+	}
+	for n := 1; n <= 4; n++ {
+		tx.Boxes = append(tx.Boxes, transactions.BoxRef{Index: 0, Name: []byte(vc18BoxName(n))})
+	}
+	nops := r.Intn(7)
+	fee := p.MinTxnFee
+	if tx.OnCompletion == transactions.ClearStateOC {
+		// a ClearState program may fail or reject without failing the transaction: state
+		// writes followed (half of the time) by err / reject must then be dropped
+		for k := 0; k < 1+r.Intn(3); k++ {
+			if r.Bool() {
+				tx.ApplicationArgs = append(tx.ApplicationArgs, vc18Arg(4, uint64(1+r.Intn(4)), uint64(r.Intn(2)), 0, 0, 0, false))
+			} else {
+				tx.ApplicationArgs = append(tx.ApplicationArgs, vc18Arg(6, localAcct(), uint64(1+r.Intn(4)), uint64(r.Intn(2)), 0, 0, false))
+			}
+		}
+		if r.Bool() {
+			tx.ApplicationArgs = append(tx.ApplicationArgs, vc18Arg(byte(10+r.Intn(2)), 0, 0, 0, 0, 0, false))
+		}
+		return s
+	}
+	nops = r.Intn(5)
+	// what the application can afford / has room for right now (mostly respected)
+	appMin := appBal.MinBalance(&p).Raw
+	spend := uint64(0)
+	if appBal.MicroAlgos.Raw > appMin+uint64(nops)*fee {
+		spend = appBal.MicroAlgos.Raw - appMin - uint64(nops)*fee
+	}
+	creator, _, _ := ev.state.GetCreator(basics.CreatableIndex(id), basics.AppCreatable)
+	gcnt, _ := ev.state.getStorageCounts(creator, basics.AppIndex(id), true)
+	glim, _ := ev.state.getStorageLimits(creator, basics.AppIndex(id), true)
+	anyOpted := u.pick(func(i int) bool { return optedIn(u.addrs[i]) }) >= 0
+	sloppy := r.Intn(5) == 0
+	for k := 0; k < nops; k++ {
+		var arg []byte
+		o := r.Intn(40)
+		if !sloppy {
+			switch {
+			case o < 11 && spend < p.BoxFlatMinBalance+p.BoxByteMinBalance*64: // boxes need funding
+				o = 11
+			case o >= 18 && o < 24 && !anyOpted: // local state needs an opted-in account
+				o = 11
+			}
+		}
+		switch {
+		case o < 6:
+			arg = vc18Arg(1, boxName(false), uint64(r.Intn(48)), 0, 0, 0, false)
+			if spend > p.BoxFlatMinBalance+p.BoxByteMinBalance*64 {
+				spend -= p.BoxFlatMinBalance + p.BoxByteMinBalance*64
+			}
+		case o < 9:
+			arg = vc18Arg(2, boxName(true), 0, 0, 0, 0, false)
+		case o < 11:
+			arg = vc18Arg(3, boxName(true), uint64(r.Intn(64)), 0, 0, 0, false)
+		case o < 16:
+			ty := uint64(r.Intn(2))
+			if !sloppy { // a type the schema still has room for
+				if ty == 1 && gcnt.NumByteSlice >= glim.NumByteSlice {
+					ty = 0
+				}
+				if ty == 0 && gcnt.NumUint >= glim.NumUint {
+					ty = 1
+				}
+			}
+			arg = vc18Arg(4, uint64(1+r.Intn(4)), ty, 0, 0, 0, false)
+			if ty == 1 {
+				gcnt.NumByteSlice++
+			} else {
+				gcnt.NumUint++
+			}
+		case o < 18:
+			arg = vc18Arg(5, uint64(1+r.Intn(4)), 0, 0, 0, 0, false)
+		case o < 22:
+			arg = vc18Arg(6, localAcct(), uint64(1+r.Intn(4)), uint64(r.Intn(2)), 0, 0, false)
+		case o < 24:
+			arg = vc18Arg(7, localAcct(), uint64(1+r.Intn(4)), 0, 0, 0, false)
+		case o < 32: // inner payment
+			amt := uint64(0)
+			if spend > 0 {
+				amt = r.U64() % (spend/2 + 1)
+			}
+			switch r.Intn(10) {
+			case 0:
+				amt = 0
+			case 1:
+				amt = spend // down to the minimum balance exactly
+			case 2:
+				if sloppy {
+					amt = appBal.MicroAlgos.Raw // everything: the fee then overspends
+				}
+			}
+			if amt <= spend {
+				spend -= amt
+			}
+			cl := uint64(0)
+			if r.Intn(14) == 0 {
+				cl = uint64(1 + r.Intn(3))
+			}
+			arg = vc18Arg(8, uint64(r.Intn(3)), amt, cl, fee, 0, r.Intn(4) == 0 && k+1 < nops)
+			if arg[41] == 1 { // the next operation must be an inner transaction as well
+				tx.ApplicationArgs = append(tx.ApplicationArgs, arg)
+				k++
+				arg = vc18Arg(8, uint64(r.Intn(3)), vc18Mod(r.U64(), spend/4+1), 0, fee, 0, false)
+			}
+		case o < 34 && len(tx.ForeignAssets) > 0:
+			arg = vc18Arg(13, uint64(r.Intn(len(tx.ForeignAssets))), 0, 0, fee, 0, false)
+		case o < 36 && len(tx.ForeignAssets) > 0:
+			arg = vc18Arg(9, uint64(r.Intn(len(tx.ForeignAssets))), uint64(r.Intn(50)), uint64(r.Intn(3)), fee, 0, false)
+		case o == 36 && r.Intn(2) == 0:
+			arg = vc18Arg(10, 0, 0, 0, 0, 0, false)
+		case o == 37 && r.Intn(2) == 0:
+			arg = vc18Arg(11, 0, 0, 0, 0, 0, false)
+		case o == 38 && r.Intn(3) == 0 && tx.OnCompletion != transactions.ClearStateOC:
+			arg = vc18Arg(12, 0, 0, 0, 0, 0, false)
+		default:
+			arg = vc18Arg(5, uint64(1+r.Intn(4)), 0, 0, 0, 0, false)
+		}
+		tx.ApplicationArgs = append(tx.ApplicationArgs, arg)
 	}
 	return s
 }
@@ -1068,9 +1888,6 @@ func (u *vc18U) genGroup(ev *BlockEvaluator, rnd basics.Round, faultPct int, inB
 	}
 	for i := range txs {
 		stxs[i] = txs[i].tx.Sign(u.keys[txs[i].signer])
-		if txs[i].tx.Type == protocol.AssetConfigTx && txs[i].tx.ConfigAsset == 0 {
-			u.addAid(ev.state.Counter() + uint64(i) + 1) // the index this creation gets if the group is accepted
-		}
 	}
 	return stxs, fault, pos
 }
@@ -1108,6 +1925,8 @@ func (u *vc18U) describe(ev *BlockEvaluator, stxs []transactions.SignedTxn) []in
 		case protocol.KeyRegistrationTx:
 			body = vL(vSym("keyreg"), vc18KeyID(t.VotePK[:]), vc18KeyID(t.SelectionPK[:]), vc18KeyID(t.StateProofPK[:]),
 				uint64(t.VoteFirst), uint64(t.VoteLast), t.VoteKeyDilution, t.Nonparticipation)
+		case protocol.ApplicationCallTx:
+			body = u.describeApp(t)
 		case protocol.AssetConfigTx:
 			body = append(vL(vSym("acfg"), uint64(t.ConfigAsset)), u.aparams(t.AssetParams)...)
 		case protocol.AssetTransferTx:
@@ -1128,6 +1947,7 @@ type vc18Opts struct {
 	universes, blocks, groups int // per universe: blocks; per block: up to groups
 	faultPct                  int
 	assetWeight               int
+	appWeight                 int
 	file                      string
 	salt                      uint64
 }
@@ -1140,6 +1960,7 @@ func vc18Run(t *testing.T, o vc18Opts) {
 	for un := 0; un < o.universes; un++ {
 		u := vc18NewUniverse(t, r, st)
 		u.assetWeight = o.assetWeight
+		u.appWeight = o.appWeight
 		var prevBlock [][]transactions.SignedTxn
 		for b := 0; b < o.blocks && !u.dead; b++ {
 			prevBlock = u.block(t, out, o, prevBlock)
@@ -1170,6 +1991,7 @@ func (u *vc18U) block(t *testing.T, out *vOut, o vc18Opts, prevBlock [][]transac
 		}
 	}
 	baseAssets, _ := u.ledgerAview()
+	baseRows := u.ledgerAppRows(true)
 	ru := l.totals.RewardUnits()
 	ev, err := StartEvaluator(l, hdr, EvaluatorOptions{Validate: true, Generate: true})
 	if err != nil {
@@ -1183,7 +2005,7 @@ func (u *vc18U) block(t *testing.T, out *vOut, o vc18Opts, prevBlock [][]transac
 	if ev.state.rewardsLevel() > prev.RewardsLevel {
 		st["blocks_with_rewards"]++
 	}
-	hd := vL(uint64(rnd), prev.RewardsLevel, ev.state.rewardsLevel(), ru, vc18Sink+1, vc18Pool+1, 0, prev.TxnCounter)
+	hd := vL(uint64(rnd), prev.RewardsLevel, ev.state.rewardsLevel(), ru, vc18Sink+1, vc18Pool+1, 0, prev.TxnCounter, len(u.addrs))
 	startObs := u.snap(ev)
 	var groups []interface{}
 	var inBlock [][]transactions.SignedTxn
@@ -1191,7 +2013,11 @@ func (u *vc18U) block(t *testing.T, out *vOut, o vc18Opts, prevBlock [][]transac
 	for gi := 0; gi < ng; gi++ {
 		stxs, fault, pos := u.genGroup(ev, rnd, o.faultPct, inBlock, prevBlock)
 		desc := u.describe(ev, stxs)
+		before := len(ev.block.Payset)
 		err := ev.TransactionGroup(transactions.WrapSignedTxnsWithAD(stxs)...)
+		if err == nil {
+			u.learnIDs(ev.block.Payset[before:])
+		}
 		code := vc18ErrClass(err)
 		if code == 99 {
 			t.Fatalf("unclassified group error %v", err)
@@ -1210,6 +2036,16 @@ func (u *vc18U) block(t *testing.T, out *vOut, o vc18Opts, prevBlock [][]transac
 			inBlock = append(inBlock, stxs)
 			for _, s := range stxs {
 				st["accepted_"+string(s.Txn.Type)]++
+				if s.Txn.Type == protocol.ApplicationCallTx {
+					st[fmt.Sprintf("accepted_appl_oc%d", s.Txn.OnCompletion)]++
+					if s.Txn.ApplicationID == 0 {
+						st["accepted_appl_create"]++
+					} else {
+						for _, a := range s.Txn.ApplicationArgs {
+							st[fmt.Sprintf("accepted_appop_%02d", a[0])]++
+						}
+					}
+				}
 				if !s.Txn.CloseRemainderTo.IsZero() {
 					st["accepted_close"]++
 				}
@@ -1222,8 +2058,8 @@ func (u *vc18U) block(t *testing.T, out *vOut, o vc18Opts, prevBlock [][]transac
 	giveUp := func(why string, err error) [][]transactions.SignedTxn {
 		st["block_refused_"+why]++
 		fav, fcr := u.ledgerAview()
-		end := vL(vL(), vL(), 0, 0, 19, u.ledgerTable(), fav, fcr)
-		out.Case(vSym("blk"), vc18Params(l.proto), hd, base, baseTx, baseAssets, u.aidList(), startObs, groups, end)
+		end := vL(vL(), vL(), 0, 0, 19, u.ledgerTable(), fav, fcr, u.ledgerAppRows(false))
+		out.Case(vSym("blk"), vc18Params(l.proto), hd, base, baseTx, baseAssets, u.aidList(), baseRows, u.appList(), startObs, groups, end)
 		u.dead = true
 		t.Logf("block %d refused (%s): %v", rnd, why, err)
 		return nil
@@ -1266,14 +2102,14 @@ func (u *vc18U) block(t *testing.T, out *vOut, o vc18Opts, prevBlock [][]transac
 	}
 	l.add(blk, delta)
 	fav, fcr := u.ledgerAview()
-	end := vL(expired, absent, u.id(blk.Proposer()), blk.ProposerPayout().Raw, endCode, u.ledgerTable(), fav, fcr)
-	out.Case(vSym("blk"), vc18Params(l.proto), hd, base, baseTx, baseAssets, u.aidList(), startObs, groups, end)
+	end := vL(expired, absent, u.id(blk.Proposer()), blk.ProposerPayout().Raw, endCode, u.ledgerTable(), fav, fcr, u.ledgerAppRows(false))
+	out.Case(vSym("blk"), vc18Params(l.proto), hd, base, baseTx, baseAssets, u.aidList(), baseRows, u.appList(), startObs, groups, end)
 	return append(prevBlock, inBlock...)
 }
 
 func TestVerifC18(t *testing.T) {
-	vc18Run(t, vc18Opts{universes: vEnvInt("VERIF_C18_UNIVERSES", 12), blocks: vEnvInt("VERIF_C18_BLOCKS", 6),
-		groups: vEnvInt("VERIF_C18_GROUPS", 10), faultPct: vEnvInt("VERIF_C18_FAULTPCT", 25), assetWeight: vEnvInt("VERIF_C18_ASSETS", 8),
+	vc18Run(t, vc18Opts{universes: vEnvInt("VERIF_C18_UNIVERSES", 12), blocks: vEnvInt("VERIF_C18_BLOCKS", 8),
+		groups: vEnvInt("VERIF_C18_GROUPS", 10), faultPct: vEnvInt("VERIF_C18_FAULTPCT", 25), assetWeight: vEnvInt("VERIF_C18_ASSETS", 8), appWeight: vEnvInt("VERIF_C18_APPS", 16),
 		file: "cases_c18.txt", salt: 0xC18})
 }
 
